@@ -280,6 +280,8 @@ def parse_reply(ans) -> dict:
     out: Dict[str, Any] = {}
     out['chans'] = ptgen._field(ans, 'chans')
     out['regular'] = ptgen._field(ans, 'regular')[0] == 'true'
+    # the hypotheses of the `_partial` theorems (supported, regular, keeps) hold for this case
+    out['covered'] = ptgen._field(ans, 'covered')[0] == 'true'
     out['tdur'] = _res(ptgen._field(ans, 'tdur')[0])
     model = {}
     for row in ptgen._field(ans, 'model'):
@@ -686,6 +688,8 @@ def assess(ctx, rec, count=True):
             ctx.count('kind:' + k)
         if not reply['regular']:
             ctx.count('not-regular')
+        elif reply.get('covered') and impl['status'] == 'ok':
+            ctx.count('theorem-hypotheses-hold')
         if not rec['meta']['keep']:
             ctx.count('leaf-without-channel')
         if not rec['meta'].get('complete', True):
